@@ -5,3 +5,4 @@ pub mod props;
 pub mod rng;
 pub mod run;
 pub mod tape;
+pub mod verify_bc;
